@@ -102,7 +102,10 @@ def faults_of(base):
 
 
 NEST_HEAD = '<definitions xmlns="https://www.omg.org/spec/DMN/20191111/MODEL/" namespace="n" name="m">'
-NEST_KINDS = ("context", "itemComponent", "functionDefinition", "invocation", "unknown-element", "list-literal", "parentheses")
+NEST_KINDS = ("context", "itemComponent", "functionDefinition", "invocation", "unknown-element", "list-literal", "parentheses",
+              # the same element nestings written with a prefix bound to another namespace (the loader finds children by local name)
+              "context@ns", "itemComponent@ns", "functionDefinition@ns", "invocation@ns")
+NEST_TAGS = {"context": ("context", "contextEntry"), "itemComponent": ("itemComponent",), "functionDefinition": ("functionDefinition",), "invocation": ("invocation",)}
 # valid models whose only peculiarity is the size / shape of the requirement graph or of the item-definition reference graph:
 # chains n long, and lattices of n layers x 4 elements in which every element requires (refers to) every element of the next layer
 # (4^(n-1) paths over 4n elements: anything that walks paths instead of elements does not end)
@@ -114,6 +117,11 @@ def nested_model(kind, n):
     """A valid model whose only peculiarity is the nesting depth n of one construct."""
     dec = '<decision name="d" id="d"><variable name="d"%s/>%s</decision>'
     lit = "<literalExpression><text>%s</text></literalExpression>"
+    if kind.endswith("@ns"):
+        text = nested_model(kind[:-3], n)
+        for tag in NEST_TAGS[kind[:-3]]:
+            text = text.replace("<%s>" % tag, "<v:%s>" % tag).replace("<%s " % tag, "<v:%s " % tag).replace("</%s>" % tag, "</v:%s>" % tag)
+        return text.replace("<definitions ", '<definitions xmlns:v="https://verif.example/other-namespace" ', 1)
     if kind == "context":
         body = dec % ("", "<context><contextEntry>" * n + lit % "1" + "</contextEntry></context>" * n)
     elif kind == "itemComponent":
